@@ -2572,7 +2572,7 @@ class NumericField(HDF5Field):
         are read-only in order to protect accidental writes to datasets
         """
         self._ensure_valid()
-        return NumericField(self._session, self._field, None, write_enabled=True)
+        return NumericField(self._session, self._field, self._dataframe, write_enabled=True)
 
     def create_like(self, group=None, name=None, timestamp=None):
         """
